@@ -65,6 +65,7 @@ type Exec struct {
 	Steps     int
 	wantTrace bool
 	Notes     map[string]string
+	TimersFired int
 }
 
 type PanicInfo struct {
@@ -496,3 +497,21 @@ func (l *Log) AppendQuiet(s string) {
 	EvWrite(&l.o, "log.append", HashStr(s))
 	l.Ev = append(l.Ev, s)
 }
+
+// Counter is a harness-owned shared integer; Add is a scheduling point and a write event.
+type Counter struct {
+	o Obj
+	v int
+}
+
+func (c *Counter) Add(d int) int {
+	simple("counter.Add", nil)
+	EvWrite(&c.o, "counter.add", uint64(int64(d)))
+	c.v += d
+	return c.v
+}
+func (c *Counter) Load() int { simple("counter.Load", nil); EvRead(&c.o, "counter.load", uint64(int64(c.v))); return c.v }
+func (c *Counter) Peek() int { return c.v }
+
+// TimersFired reports how many timers have fired so far in this execution (read as an HB event on the timer).
+func TimersFired() int { return S.TimersFired }
